@@ -57,6 +57,35 @@ def get(relpath, qualname, index=0):
     return found[index]
 
 
+_NOCONST = object()
+
+
+def module_constant(nodes, name):
+    """value of a module-level ``NAME = <literal>`` next to the functions under contract, or _NOCONST"""
+    seen = set()
+    for n in nodes:
+        o = _origin.get(id(n))
+        if o is None or o[0] in seen:
+            continue
+        seen.add(o[0])
+        _, mod = module_ast(o[0])
+        for st in mod.body:
+            targets = st.targets if isinstance(st, ast.Assign) else [st.target] if isinstance(st, ast.AnnAssign) and st.value else []
+            if any(isinstance(t, ast.Name) and t.id == name for t in targets):
+                try:
+                    return ast.literal_eval(st.value)
+                except Exception:
+                    pass
+                ok = (ast.Constant, ast.BinOp, ast.UnaryOp, ast.Tuple, ast.List, ast.operator, ast.unaryop, ast.Load, ast.expr_context)
+                if all(isinstance(x, ok) for x in ast.walk(st.value)):       # e.g. " " * 10: constants and operators only
+                    try:
+                        return eval(compile(ast.Expression(st.value), "<const>", "eval"), {"__builtins__": {}}, {})
+                    except Exception:
+                        return _NOCONST
+                return _NOCONST
+    return _NOCONST
+
+
 def sibling(nodes, name, method=False):
     """A function the contract did not name (e.g. a helper a refactor extracted): look ``name`` up next to the
     functions already under contract -- as a method of their classes when ``method``, else as a top-level
